@@ -5,22 +5,24 @@ CFG = dict(
     bins=["c04"],
     imports=["Run.RunC04"],
     rule="two-series family (ts_vcov, ts_vcorr, ts_vregx_alpha/beta/all, ts_vregx_resid_mean/std/skew): pairs of "
-         "equal-length series, exhaustive over the alphabet {-1, 0, 2, null}^2 per position up to length 2 (thorough 3) "
-         "+ 260 (thorough 2500) structured random pairs of length 3..24 of dyadic values (uniform / small alphabet "
-         "with ties / exactly collinear a = c + d*b / constant regressor / constant response / random walks / collinear "
-         "with one outlier / monotone regressor) x independent null patterns (9 patterns each); time-trend family "
-         "(ts_vreg, ts_vtsf, ts_vreg_slope, ts_vreg_intercept, ts_vreg_resid_mean): exhaustive over {-1, 0, 2, null} up to "
-         "length 3 (thorough 5) + 220 (2000) random series (uniform / alphabet / exact line over the non-null ranks / "
-         "constant / walk / line with one outlier) x 9 null patterns; windows 1..=len+2, min_periods omitted or 0..=w (all of "
-         "them in the exhaustive scope up to length 2 resp. 3, 3 random (w, mp) per random series); backends Vec (index "
-         "body; returned and caller-buffer), VecDeque (iterator body when returned, index body with a caller buffer), Vec "
-         "against VecDeque; element types f64, Option<f64>, mixed f64/Option<f64>, i32/i64; outputs f64, f32, Option<f64>, "
-         "(f64,f64,f64); compared with the model at Coq's binary64 within 1e-7 relative to max(1,|x|,S) with S the "
-         "window magnitude (M^2 for cov/sse, M*len for first-order outputs, (M*len)^2 for the trend mean squared residual), "
-         "nullness and panics exact; at a position whose window is singular in exact arithmetic (regressor without spread "
-         "over the pairwise-complete observations / fewer than two non-null values; flag computed from scratch by the model "
-         "run) neither value nor nullness is compared (DESIGN 5.6), only that the implementation produced a value; a case is "
-         "non-trivial when the series is non-empty",
+         "equal-length series, exhaustive over the alphabet {-1, 0, 2, null}^2 per position up to length 2 (every "
+         "(w, mp); every function up to length 1, a rotating third of the functions at length 2; thorough adds length 3 "
+         "with a rotating 1/36 of the (w, mp) configurations) + 260 (thorough 1200) structured random pairs of length "
+         "3..24 of dyadic values (uniform / small alphabet with ties / exactly collinear a = c + d*b / constant regressor / "
+         "constant response / random walks / collinear with one outlier / monotone regressor) x independent null patterns "
+         "(9 patterns each); time-trend family (ts_vreg, ts_vtsf, ts_vreg_slope, ts_vreg_intercept, ts_vreg_resid_mean): "
+         "exhaustive over {-1, 0, 2, null} up to length 3 (thorough 4) + 220 (1200) random series (uniform / alphabet / "
+         "exact line over the non-null ranks / constant / walk / line with one outlier) x 9 null patterns; windows "
+         "1..=len+2, min_periods omitted or 0..=w (all of them in the exhaustive scope, 3 random (w, mp) per random "
+         "series); backends Vec (index body; returned and caller-buffer), VecDeque (iterator body when returned, index "
+         "body with a caller buffer), Vec against VecDeque; element types f64, Option<f64>, mixed f64/Option<f64>, "
+         "i32/i64; outputs f64, f32, Option<f64>, (f64,f64,f64); compared with the model at Coq's binary64 within 1e-7 "
+         "relative to max(1,|x|,S) with S the window magnitude (M^2 for cov/sse, M*len for first-order outputs, "
+         "(M*len)^2 for the trend mean squared residual; measured agreement is < 1e-13 relative), nullness and panics "
+         "exact; at a position whose window is singular in exact arithmetic (regressor without spread over the "
+         "pairwise-complete observations / fewer than two non-null values; flag computed from scratch by the model run) "
+         "neither value nor nullness is compared (DESIGN 5.6), only that the implementation produced a value; a case "
+         "is non-trivial when the series is non-empty",
     theorem_hint="Props/C04.v: C04_ts_vcov, C04_ts_vcorr, C04_ts_vregx_*, C04_ols_*, C04_ts_vreg*, C04_perfect_line*",
     level_text="Proof (Coq, carrier option R): the add-emit-remove sliding invariant instantiated with the cross power sums "
                "(n, Sa, Sb, Sab, Saa, Sbb) of the pairwise-complete window and with (n, Sx, S t*x, Sxx) of the non-null "
